@@ -26,7 +26,7 @@ TOLF = F(1e-9)
 META = dict(
     bounds=dict(
         quick="concrete vectors: every pattern of degree 1..3 with 1-2 interior knots (sampled), removal of 1..m copies of one knot and of "
-              "two knots at once; polynomial (scalar/2-D) and rational (concrete weights); tolerances default, 1e-3, None",
+              "two knots at once; polynomial (scalar/2-D) and rational (concrete weights); tolerances default, 1e-3, 0, None",
         thorough="all patterns of degree 1..4 with <=2 interior knots and degree<=2 with 3, two value assignments",
     ),
     assumptions=["Fraction knots, exact arithmetic", "rational curves carry concrete positive weights",
@@ -58,8 +58,8 @@ def configs(tier, seed):
                         cfgs.append(dict(name=f"exact {tag} knot {j} x{t} rat", kind="exact", j=j, t=t, rat=True, dim=0, **base))
                 for t in sorted({1, m}):
                     cfgs.append(dict(name=f"none {tag} knot {j} x{t}", kind="none", j=j, t=t, rat=False, dim=0, **base))
-                    for tol in ("default", "1e-3"):
-                        if tol == "1e-3" and (i + j + seed) % 2:
+                    for tol in ("default", "1e-3", "0"):
+                        if tol != "default" and (i + j + seed + (tol == "0")) % 2:
                             continue
                         cfgs.append(dict(name=f"band {tag} knot {j} x{t} tol={tol}", kind="band", j=j, t=t, tol=tol, rat=False, dim=0, **base))
             if len(pat) == 4:
@@ -69,7 +69,7 @@ def configs(tier, seed):
 
 
 def _tol(cfg):
-    return {"default": F(1e-9), "1e-3": F(1e-3)}[cfg["tol"]]
+    return {"default": F(1e-9), "1e-3": F(1e-3), "0": F(0)}[cfg["tol"]]
 
 
 def body(env, cfg):
@@ -157,6 +157,8 @@ def body(env, cfg):
     try:
         if cfg["tol"] == "default":
             c.knot_remove(list(nodes))
+        elif cfg["tol"] == "0":
+            c.knot_remove(list(nodes), 0)  # only an exact removal may be accepted
         else:
             c.knot_remove(list(nodes), 1e-3)
     except ValueError:
